@@ -41,7 +41,13 @@ func newReplayer(knownOpen []string) *replayer {
 	return &replayer{tmp: tmp, knownOpen: knownOpen, pkgs: map[string]*replayPkg{}}
 }
 
-func (r *replayer) cleanup() { os.RemoveAll(r.tmp) }
+func (r *replayer) cleanup() {
+	if os.Getenv("SYMGO_KEEP") != "" {
+		fmt.Println("replay files kept in", r.tmp)
+		return
+	}
+	os.RemoveAll(r.tmp)
+}
 
 func (r *replayer) want(j JobSpec) {
 	k := j.Dir + "|" + j.Pkg
